@@ -5,11 +5,14 @@ package vf
 // read-write handle is open; Close and a failed Open release the lock.
 
 import (
+	"bytes"
 	"errors"
 	"fmt"
 	"os"
 	"path/filepath"
+	"runtime"
 	"strings"
+	"syscall"
 	"testing"
 	"time"
 
@@ -366,6 +369,99 @@ func (h *hEnv) apply(op HOp) {
 		}
 		_ = l2.Close()
 		h.st.Inc("handles_closed_after_failed_reads")
+	case "open-while-closing":
+		// an Open that starts while the writer still has the directory and gets the lock only after the writer's last
+		// publish and Close: whatever Open looked at before it owned the lock is out of date by then. The second Open is
+		// parked inside its lock acquisition by making the lock file a FIFO (opening it blocks until somebody opens
+		// the other end), no hook involved.
+		if rw != 1 || ro != 0 || op.N%2 == 1 {
+			return
+		}
+		var a klevdb.Log
+		slot := -1
+		for i, m := range h.mode {
+			if m == 1 {
+				a, slot = h.slots[i], i
+			}
+		}
+		lockPath := filepath.Join(h.dir, ".lock")
+		if fi, err := os.Lstat(lockPath); err != nil || !fi.Mode().IsRegular() {
+			return
+		}
+		_ = os.Remove(lockPath) // the writer keeps its lock on the unlinked file
+		if err := syscall.Mkfifo(lockPath, 0600); err != nil {
+			h.fail("mkfifo: %v", err)
+		}
+		type res struct {
+			l   klevdb.Log
+			err error
+		}
+		rc := make(chan res, 1)
+		asRO := op.RO
+		go func() {
+			l, err := klevdb.Open(h.dir, h.opts(asRO))
+			rc <- res{l, err}
+		}()
+		// give the second Open time to reach the FIFO (only steers: if it is late, it simply sees the final state)
+		deadline := time.Now().Add(20 * time.Millisecond)
+		for time.Now().Before(deadline) {
+			buf := make([]byte, 1<<16)
+			n := runtime.Stack(buf, true)
+			if bytes.Contains(buf[:n], []byte("flock.(*Flock)")) {
+				break
+			}
+			time.Sleep(200 * time.Microsecond)
+		}
+		// the writer moves on: new segments appear, then it closes
+		for k := 0; k < 2+op.N%3; k++ {
+			var msgs []klevdb.Message
+			for j := 0; j < 2+op.N%3; j++ {
+				h.ts++
+				msgs = append(msgs, klevdb.Message{Time: time.UnixMicro(h.ts), Key: KeyUniverse[(op.N+j)%len(KeyUniverse)], Value: pattern(40+op.N%40, byte(op.N))})
+			}
+			n, err := a.Publish(msgs)
+			if err != nil || n != h.m.Next+int64(len(msgs)) {
+				h.fail("Publish returned %d,%v", n, err)
+			}
+			for _, x := range msgs {
+				h.m.Append(FromMessage(x))
+			}
+		}
+		if op.RmIx && len(h.m.Live) > 0 {
+			// ... or the newest message goes, which also creates a new head
+			last := h.m.Live[len(h.m.Live)-1].Off
+			if del, _, err := a.Delete(map[int64]struct{}{last: {}}); err == nil && len(del) == 1 {
+				h.m.Remove(last)
+			}
+		}
+		if err := a.Close(); err != nil {
+			h.fail("Close failed: %v", err)
+		}
+		h.slots[slot], h.mode[slot] = nil, 0
+		// release the parked Open: open the other end of the FIFO
+		fifo, ferr := os.OpenFile(lockPath, os.O_RDWR, 0)
+		r := <-rc
+		if ferr == nil {
+			_ = fifo.Close()
+		}
+		if r.err != nil {
+			_ = os.Remove(lockPath)
+			h.fail("an Open (read-only=%v) that got the lock after the writer closed failed: %v", asRO, r.err)
+		}
+		next, nerr := r.l.NextOffset()
+		got, serr := scanLog(r.l)
+		cerr := r.l.Close()
+		_ = os.Remove(lockPath) // the next Open creates a regular lock file again
+		if nerr != nil || next != h.m.Next {
+			h.fail("a handle (read-only=%v) opened while the writer was closing reports NextOffset %d,%v; the writer's last Publish returned %d", asRO, next, nerr, h.m.Next)
+		}
+		if serr != nil || len(got) != len(h.m.Live) {
+			h.fail("a handle (read-only=%v) opened while the writer was closing reads %d messages (%v), the log holds %d", asRO, len(got), serr, len(h.m.Live))
+		}
+		if cerr != nil {
+			h.fail("Close failed: %v", cerr)
+		}
+		h.st.Inc("opens_parked_in_lock_acquisition_while_writer_closes")
 	case "fail-missing":
 		o := h.opts(op.RO)
 		if l, err := klevdb.Open(filepath.Join(h.dir, "no-such-dir"), o); err == nil {
@@ -407,7 +503,7 @@ func runHandlesCase(c *HandlesCase, st *Stats) {
 func genHandlesCase(t *rapid.T) *HandlesCase {
 	c := &HandlesCase{Keys: rapid.Bool().Draw(t, "keys"), Times: rapid.Bool().Draw(t, "times"), Rollover: int64(pick(t, []int{100, 300, 1 << 20}, "rollover"))}
 	n := 5 + uni(t, 40, "nops")
-	kinds := []string{"open-rw", "open-rw", "open-ro", "open-ro", "open-ro", "close", "close", "close", "publish", "publish", "ro-queries", "fail-flags", "fail-corrupt", "fail-missing", "ro-damaged", "damaged-read-close"}
+	kinds := []string{"open-rw", "open-rw", "open-ro", "open-ro", "open-ro", "close", "close", "close", "publish", "publish", "ro-queries", "fail-flags", "fail-corrupt", "fail-missing", "ro-damaged", "damaged-read-close", "open-while-closing"}
 	for i := 0; i < n; i++ {
 		c.Ops = append(c.Ops, HOp{Kind: pick(t, kinds, "kind"), Slot: uni(t, 3, "slot"), RO: rapid.Bool().Draw(t, "ro"), N: uni(t, 64, "n"), RmIx: uni(t, 4, "rmix") == 3})
 	}
